@@ -46,8 +46,9 @@ CHECKS["C01"] = NS(
         "Per-element float64 nearest-grid-point oracle over (a) the complete finite value space of float16 and bfloat16 "
         "against a stride of (quick) or every (thorough: exhaustive value x scale square) positive finite scale, (b) "
         "boundary-directed float32 values (every grid point and rounding midpoint +-3 ulp, beyond-range, random bit "
-        "patterns), (c) Hypothesis-drawn ranks/shapes/layouts with independent per-axis scales. Exploration; float32 and "
-        "layouts are sampled, the 16-bit square is complete in the thorough tier."
+        "patterns), (c) Hypothesis-drawn ranks/shapes/layouts with independent per-axis scales, (d) scales of another float "
+        "dtype than the tensor (per-tensor and per-axis). Exploration; float32, layouts and mixed dtypes are sampled, the "
+        "16-bit square is complete in the thorough tier."
     ),
     LEVEL_NOTE="trusts torch's float64 arithmetic and dtype conversions for the reference; tolerance 2(|x/s|u+eta) for the single working-dtype division, 2 ulp for dequantization",
     TECHNIQUE=PBT + "float64 reference (nearest grid point), saturation and round-trip (idempotence) oracles",
@@ -55,7 +56,9 @@ CHECKS["C01"] = NS(
         "square: all finite fp16/bf16 values as one tensor x scale bit patterns x {qint8,e4m3fn,e5m2} x {quantize_activation,"
         "SymmetricQuantizer.apply}; fp32: 511 grid points/midpoints +-3ulp + beyond-range + random bit patterns per drawn scale; "
         "layout: rank 1-4, axis None/0/-1, one independent scale per kept index over up to 8 decades, 6 stride recipes, square "
-        "shapes over-represented. Non-trivial: the case's tensor has elements beyond the grid on both sides (layout: on a side), "
+        "shapes over-represented; mixed: tensor dtype x other scale dtype x scale bits over the scale dtype's whole positive "
+        "range x {quantize_activation, SymmetricQuantizer per-tensor, axis 0, axis -1} (non-trivial when the scale is not "
+        "representable in the tensor's dtype). Non-trivial: the case's tensor has elements beyond the grid on both sides (layout: on a side), "
         "within rounding of a midpoint and strictly interior (layout: and is per-axis, non-contiguous or rank != 2). Distinct by "
         "(dtype, qtype, scale bits | shape, axis, layout, fill)."
     ),
@@ -84,9 +87,10 @@ CHECKS["C02"] = NS(
     TECHNIQUE=PBT + "float64 per-group error bound and round-trip (re-quantization) oracles",
     RULE=(
         "Hypothesis: dtype x bits x axis in {0,-1} x rank 1-4 shape (small, square, wide up to 512 per-axis elements, conv-like) x "
-        "group_size in {None} + divisors x per-group class/magnitude vectors x seed. Non-trivial: at least one group that does not "
+        "group_size in {None} + divisors x per-group class/magnitude vectors x memory layout of the source {contiguous, permuted / "
+        "transposed, step-sliced, offset} x seed. Non-trivial: at least one group that does not "
         "straddle zero (zeros/const/pos/neg/offset/single) and at least one straddling group in the same tensor. Distinct by (dtype, "
-        "qtype, axis, shape, group_size, class vector)."
+        "qtype, axis, shape, group_size, layout, class vector)."
     ),
     ASSUMPTIONS=[
         "rank-1 tensors: the whole vector is one group (what quanto's reduction does and test_affine_quantize_integer_tensor relies on)",
@@ -363,7 +367,9 @@ CHECKS["C10"] = NS(
         "Model-based testing of save/load histories: Hypothesis draws a runnable model (in_features chosen so that automatic group sizes "
         "32/64/96/128/none all occur), a configuration (6 weight qtypes x 4 activation settings x 3 dtypes), optional calibration "
         "(streamlining on/off), frozen or not, and 1-3 cycles of (serializer in pickle / weights_only / safetensors, target in "
-        "same-quantized / default-quantized / requantize()). Oracles per cycle: state_dict values are exactly torch.Tensor or str; the "
+        "same-quantized / default-quantized / requantize() / same-quantized and already frozen / same-quantized with "
+        "load_state_dict(assign=True)). A complete matrix (dtype x qtype x activations x frozen x serializer x target on Linear layers "
+        "of three sizes incl. a 256-512-512-128 MLP) is enumerated besides. Oracles per cycle: state_dict values are exactly torch.Tensor or str; the "
         "serializer returns the same keys, strings and bitwise-equal tensors; after loading every quantized module has equal qtypes, "
         "weight class, codes, scales, zero-points, group size, activation scales and float weights; outputs on a probe batch are "
         "bit-identical; saving again gives an equal state_dict. Exploration."
@@ -385,7 +391,8 @@ CHECKS["C14"] = NS(
         "Enumeration of the configuration grid: quantize_weight over 6 qtypes x axis in {None,-2,-1,0,1,2} x group_size in {None, "
         "1..2*numel} x 4 optimizer families x 14 shapes of rank 1-4 (stratified 1-in-8 sample in the quick tier, complete in the thorough "
         "tier); quantize_activation, SymmetricQuantizer.apply and AffineQuantizer.apply over axis x scale / zero-point shape variants "
-        "(complete in both tiers); the automatic group size for every in_features 1..8192 and a Conv2d channel/group/kernel grid "
+        "(complete in both tiers); the optimizers (AbsmaxOptimizer, MaxOptimizer) and group() called directly over axis in "
+        "{None,-3..3} x group sizes (the validation the entry points delegate to); the automatic group size for every in_features 1..8192 and a Conv2d channel/group/kernel grid "
         "(complete in both tiers, a sample is instantiated for real, run and frozen). Oracle: outcome is ValueError or a returned tensor; "
         "every listed unsupported configuration must raise ValueError; an accepted tensor must carry exactly the requested qtype/axis/"
         "group size and satisfy the structural invariant and the C01/C02 bounds."
@@ -412,7 +419,8 @@ CHECKS["C15"] = NS(
         "position permutation of the v1 (with and without reordering) and v2 packings is recovered completely by packing the base-16 "
         "digit matrices of the position index, and must be a bijection; unpack(pack(t)) == t for those matrices in four layouts "
         "(contiguous, transposed view, column slice, row slice); payloads are bit-identical to the reference packers under external/awq. "
-        "random: Hypothesis-drawn matrices (value independence). equiv: float16 group-128 weights from the row-class generator in the "
+        "random: Hypothesis-drawn matrices (value independence), also reached through chains of detach / .data / Parameter / alias / "
+        "clone (the ways modules and serializers hold a packed tensor). equiv: float16 group-128 weights from the row-class generator in the "
         "AWQ-optimised and the standard representation: dequantized values within one float16 rounding per term, conversion back "
         "(qbits_tensor and the state_dict path) restores codes, scales and zero-points bitwise. Exploration with a per-shape complete "
         "characterisation of the layout."
